@@ -367,7 +367,9 @@ func coqBent(e *env, t *codeTable, k, v []byte) string {
 	case len(k) == 41 && k[0] == byte(scommon.ST_STORAGE) && string(k[1:21]) == string(ongA) && indexOf(addrs, k[21:]) >= 0:
 		ai := indexOf(addrs, k[21:])
 		// well-formed iff it is what rawBalance writes for the value it decodes to
-		if bal, ok := decodeBalance(v); ok && string(rawBalance(bal)) == string(v) {
+		// (an integer amount of 2^64 ONG or more in the version-1 form is readable but never written
+		// by the code: the model's encoder has no such output, so it is passed raw)
+		if bal, ok := decodeBalance(v); ok && string(rawBalance(bal)) == string(v) && !(v[0] == 1 && new(big.Int).Mod(bal, big.NewInt(1000000000)).Sign() == 0) {
 			return fmt.Sprintf("BBal %s %s", hx.CoqNat(ai), bal.String())
 		}
 		return fmt.Sprintf("BBalRaw %s %s", hx.CoqNat(ai), hx.CoqBytes(v))
